@@ -92,6 +92,44 @@ type myCase struct {
 	nextID  int
 	secrets [][]byte
 	key     string
+	// typedPH: placeholder indices (0-based) an earlier prepared INSERT/UPDATE of this session bound to a column
+	// with data_type – the proxy keeps those settings for the rest of the session (known finding my-paramdef-stale-settings)
+	typedPH map[int]bool
+}
+
+// packetsOf splits a byte stream into MySQL packets (header included).
+func packetsOf(b []byte) [][]byte {
+	var out [][]byte
+	for len(b) >= 4 {
+		n := 4 + int(b[0]) | int(b[1])<<8 | int(b[2])<<16
+		n = 4 + (int(b[0]) | int(b[1])<<8 | int(b[2])<<16)
+		if n > len(b) {
+			break
+		}
+		out = append(out, b[:n])
+		b = b[n:]
+	}
+	return out
+}
+
+// onlyStaleParamDefs: the two streams (response to COM_STMT_PREPARE + COM_STMT_EXECUTE) differ only in definitions
+// of parameters whose index carries the setting of an earlier statement.
+func (cs *myCase) onlyStaleParamDefs(client, db []byte, nparams int) bool {
+	a, b := packetsOf(client), packetsOf(db)
+	if len(a) != len(b) {
+		return false
+	}
+	diff := false
+	for i := range a {
+		if bytes.Equal(a[i], b[i]) {
+			continue
+		}
+		if i < 1 || i > nparams || !cs.typedPH[i-1] {
+			return false
+		}
+		diff = true
+	}
+	return diff
 }
 
 func (cs *myCase) scanSecrets(what string, class string) bool {
@@ -264,6 +302,35 @@ func (cs *myCase) write(st *Stmt, plans [][]myPlan, covered, prep bool, params [
 		return false
 	}
 	cs.correspond(st, prep, params, cs.w.Rnd.data[p0:])
+	if prep {
+		if t := cs.sch.tab(st.Table); t != nil {
+			for _, i := range cs.protectedParams(st) {
+				// which column the parameter belongs to: the typed ones leave their setting in the session
+				for j, c := range st.SetV {
+					if c.K == 'P' && c.N-1 == i {
+						if cc := t.col(st.Sets[j]); cc != nil && cc.Set != nil && cc.Set.DType != "none" {
+							cs.typedPH[i] = true
+						}
+					}
+				}
+				names := st.Cols
+				if len(names) == 0 {
+					for _, c := range t.Cols {
+						names = append(names, c.Name)
+					}
+				}
+				for _, row := range st.Rows {
+					for j, c := range row {
+						if c.K == 'P' && c.N-1 == i && j < len(names) {
+							if cc := t.col(names[j]); cc != nil && cc.Set != nil && cc.Set.DType != "none" {
+								cs.typedPH[i] = true
+							}
+						}
+					}
+				}
+			}
+		}
+	}
 	if t := cs.sch.tab(st.Table); t != nil && !t.Configured {
 		_, cout1 := cs.a.C.Marks()
 		sent := cs.a.C.Out.Bytes()[cout0:cout1]
@@ -648,7 +715,14 @@ func (cs *myCase) doSelectStmt(t *Tab, st *Stmt, prep bool, params []myParam) {
 	if !t.Configured {
 		// the close of the prepared statement is sent after the marks were taken
 		r.Check(bytes.Equal(cs.a.C.Out.Bytes()[cout0:cout1], cs.w.DB.In.Bytes()[din0:din1]), "uncovered-statement-altered", "MySQL SELECT on an unconfigured table reached the database altered: "+sql)
-		r.Check(bytes.Equal(cs.a.C.In.Bytes()[cin0:cin1], cs.w.DB.Out.Bytes()[dout0:dout1]), "uncovered-result-altered", "result of a MySQL SELECT on an unconfigured table came back altered: "+sql)
+		got, want := cs.a.C.In.Bytes()[cin0:cin1], cs.w.DB.Out.Bytes()[dout0:dout1]
+		if !bytes.Equal(got, want) {
+			if prep && cs.onlyStaleParamDefs(got, want, len(params)) {
+				r.Fail("my-paramdef-stale-settings", "parameter definitions of the COM_STMT_PREPARE response of a statement on an unconfigured table were rewritten with the data_type of an earlier statement's column: "+sql)
+			} else {
+				r.Fail("uncovered-result-altered", "result of a MySQL SELECT on an unconfigured table came back altered: "+sql)
+			}
+		}
 	}
 	// the keyless client never receives a protected plaintext …
 	b0, _ := cs.bob.C.Marks()
@@ -713,7 +787,7 @@ func (cs *myCase) checkRows(t *Tab, cols []*Col, res *fakemy.Result, expect []*s
 
 func mySessionCase(r *core.Run, idx int) {
 	rd := r.Rand
-	cs := &myCase{r: r, rd: rd, sch: genSchema(rd), shadow: map[string][]*shadowRow{}, nextID: 1}
+	cs := &myCase{r: r, rd: rd, sch: genSchema(rd), shadow: map[string][]*shadowRow{}, nextID: 1, typedPH: map[int]bool{}}
 	cs.kv = env.NewKV(rd, 1, 1)
 	ks := &env.TKS{Clients: map[string]*env.KV{"alice": cs.kv}}
 	w, err := NewMyWorld(cs.sch.YAML(), ks, cs.sch.MyDefs(), rd.Bytes(1<<15))
